@@ -9,7 +9,9 @@ result : {"results": [{"d": hex, "pts": [[hex,hex,hex], ...]} | {"exc": type, ..
          strings (exact).  "mutated": true if the call changed one of its argument arrays.
          For line_segment_to_circle the private helper's `on_line` flag is reported too
          (it names the branch finding F10 lives in); for both line/segment-to-circle functions
-         `m0sq` = |direction x normal|^2 computed with the implementation's own operations.
+         `m0sq` = |direction x normal|^2 and `lpxn_sq` = |(line point - centre) x normal|^2 computed with the
+         implementation's own operations.  "reuse": the result of the same call made with the argument ARRAYS OF
+         THE PREVIOUS CALL of that function overwritten in place (history / caching by object identity).
 """
 import json
 import sys
@@ -30,6 +32,27 @@ def to_arg(a):
 
 def hx(v):
     return [float(x).hex() for x in np.asarray(v, dtype=float).reshape(-1)]
+
+
+_PERSIST = {}      # fn -> argument objects that are REUSED (overwritten in place) from call to call
+
+
+def reused_args(fn, raw):
+    """the same ndarray objects as in the previous call of fn, overwritten in place with the new values
+    (a caller that keeps its pose / vertex arrays and updates them between queries)"""
+    fresh = [to_arg(a) for a in raw]
+    old = _PERSIST.get(fn)
+    if old is None or len(old) != len(fresh) or any(
+            isinstance(a, np.ndarray) != isinstance(b, np.ndarray) or (isinstance(a, np.ndarray) and a.shape != b.shape)
+            for a, b in zip(old, fresh)):
+        _PERSIST[fn] = fresh
+        return fresh
+    for a, b in zip(old, fresh):
+        if isinstance(a, np.ndarray):
+            np.copyto(a, b)
+    out = [a if isinstance(a, np.ndarray) else b for a, b in zip(old, fresh)]
+    _PERSIST[fn] = out
+    return out
 
 
 def run_case(c):
@@ -57,6 +80,8 @@ def run_case(c):
             dirn = convert_segment_to_line(a[0], a[1])[0] if fn == "line_segment_to_circle" else a[1]
             cr = np.cross(dirn, a[4])
             out["m0sq"] = float(np.dot(cr, cr))
+            lx = np.cross(a[0] - a[2], a[4])          # (line point - centre) x normal, as the function computes it
+            out["lpxn_sq"] = float(np.dot(lx, lx))
     except BaseException as e:  # noqa
         out["exc"] = type(e).__name__
         out["exc_msg"] = str(e)[:300]
@@ -64,9 +89,23 @@ def run_case(c):
     return out
 
 
+def run_reuse(c, out):
+    """the same call with the argument ARRAYS OF THE PREVIOUS reuse-call of this function overwritten in place; done in
+    a second pass so that consecutive calls really see the same objects: the result must not depend on the history"""
+    if "exc" in out:
+        return
+    try:
+        res2 = getattr(D, c["fn"])(*reused_args(c["fn"], c["args"]))
+        out["reuse"] = dict(d=float(res2[0]).hex(), pts=[hx(p) for p in res2[1:]])
+    except BaseException as e:  # noqa
+        out["reuse"] = dict(exc=type(e).__name__, exc_msg=str(e)[:200])
+
+
 def main():
     payload = json.load(open(sys.argv[1]))
     res = [run_case(c) for c in payload["cases"]]
+    for c, out in zip(payload["cases"], res):
+        run_reuse(c, out)
     json.dump(dict(results=res, all=list(D.__all__)), open(sys.argv[2], "w"))
 
 
